@@ -10,7 +10,7 @@ for src in sys.argv[1:]:
     src = Path(src)
     meta = json.loads((src / "meta.json").read_text())
     extra = {"C01": ["C06"], "C09": ["C05"], "C05": ["C20", "C09"], "C07": ["C02"], "C02": ["C15"], "C04": ["C12"], "C16": ["C20"],
-             "C13": ["C20"], "C03": ["C10"], "C10": ["C03"], "C08": ["C01"], "C06": ["C01", "C08"]}.get(meta["property"], [])
+             "C13": ["C20"], "C03": ["C10"], "C10": ["C03"], "C08": ["C01"], "C06": ["C01", "C08"], "C11": ["C03"], "C16": ["C09"], "C19": ["C09"]}.get(meta["property"], [])
     r = subprocess.run([sys.executable, str(VERIF / "harness" / "seedtest.py"), str(src), *extra], capture_output=True, text=True)
     try:
         res = json.loads(r.stdout)
